@@ -14,6 +14,7 @@ import (
 	"verifmc/evid"
 	"verifmc/explore"
 	"verifmc/hx"
+	"verifmc/netrows"
 	"verifmc/stacks"
 	"verifmc/vrt"
 	"verifmc/vrt/vctx"
@@ -371,5 +372,9 @@ func main() {
 	explore.Main(run, scs, evid.Pick(run, 150*time.Second, 15*time.Minute))
 	run.Set("preemption_bound", pb)
 	run.Assume("QUIC and SSH ask paths are outside the scheduler; askers use buffers of 8 bytes; deadlines are virtual")
+	// free-running rows for sshswarm / quicswarm (outside the controlled scheduler)
+	if netrows.Run(run) {
+		run.Assume("sshswarm and quicswarm rows run free on loopback (third-party goroutines and sockets): every listed call configuration is executed once under the runtime's own schedule; waits of 20-30 s only give up, the only timing verdict is 'has not returned long after its deadline'")
+	}
 	run.Finish()
 }
